@@ -7,6 +7,8 @@ import (
 	"path/filepath"
 
 	corev1 "k8s.io/api/core/v1"
+	netv1 "k8s.io/api/networking/v1"
+	metav1 "k8s.io/apimachinery/pkg/apis/meta/v1"
 	"k8s.io/apimachinery/pkg/apis/meta/v1/unstructured"
 	"k8s.io/apimachinery/pkg/runtime"
 	"k8s.io/cli-runtime/pkg/resource"
@@ -81,7 +83,6 @@ func zzInsertInfo(infos []*resource.Info, pos int, x *resource.Info) []*resource
 	return append(res, infos[pos:]...)
 }
 
-
 // vf_RegisterDir: a directory holding the documents of infos in order; badAt[i]=k places a syntactically broken
 // file before document k; the documents whose index is in nested go to a sub-directory. Under symgo the call is intercepted: the directory lives in the scanner stub. Natively
 // real files are written to a temporary directory and the real scanner reads them.
@@ -126,4 +127,13 @@ func vf_RegisterDir(name string, infos []*resource.Info, badAt []int, nested []i
 		}
 	}
 	return dir
+}
+
+// a document the analysis cannot survive: a NetworkPolicy whose ipBlock is not a CIDR (a fatal error of the list analysis)
+func zzC13Fatal() *resource.Info {
+	np := zzNetpolObj("ns1", "np-fatal", netv1.NetworkPolicySpec{
+		PodSelector: metav1.LabelSelector{MatchLabels: map[string]string{"app": "b"}},
+		Ingress:     []netv1.NetworkPolicyIngressRule{{From: []netv1.NetworkPolicyPeer{{IPBlock: &netv1.IPBlock{CIDR: "not-a-cidr"}}}}},
+	})
+	return zzInfo(parser.NetworkPolicy, "networking.k8s.io/v1", np.NetworkPolicy)
 }
